@@ -97,4 +97,10 @@ theorem C09_gates_generated (D : Desc) (s : St) :
     commandFound D s = Gen.command_found D (s.chkUb s.cmd.isSome) :=
   ⟨updateCommand_generated D s, searchCommand_generated D s, commandFound_generated D s⟩
 
+/-- the counters this property's theorems keep as unbounded natural numbers (`index`) are declared
+`size_t` in `cat.h` — 64 bits on the target, so they cannot wrap on any buffer, table or line that exists; the widths
+are read from the struct declarations on every run (translator item T21) -/
+theorem C09_counters_unbounded :
+    Gen.width_obj_index = 64 := by decide
+
 end Cat
